@@ -52,8 +52,13 @@ func mkCert() {
 func configs(ver int) (cli, srv *tls.Config) {
 	certOnce.Do(mkCert)
 	v := uint16(tls.VersionTLS12)
-	if ver == 13 {
+	switch ver {
+	case 13:
 		v = tls.VersionTLS13
+	case 11:
+		v = tls.VersionTLS11
+	case 10:
+		v = tls.VersionTLS10
 	}
 	cli = &tls.Config{InsecureSkipVerify: true, MinVersion: v, MaxVersion: v, ServerName: "zv.example"}
 	srv = &tls.Config{Certificates: []tls.Certificate{cert}, MinVersion: v, MaxVersion: v}
@@ -76,7 +81,7 @@ func pair(ver int) (cli, srv *tls.Conn, err error) {
 		c, err := ln.Accept()
 		ch <- acc{c, err}
 	}()
-	cc, err := net.DialTimeout("tcp", ln.Addr().String(), 10*time.Second)
+	cc, err := net.DialTimeout("tcp", ln.Addr().String(), 10*time.Minute)
 	if err != nil {
 		return nil, nil, err
 	}
@@ -108,50 +113,78 @@ func classify(err error) string {
 }
 
 // RunSeq performs ops one after the other on the client Conn; the server handshakes and reads until error.
+// No deadlines are set (an "i/o timeout" of a safety deadline on a starved machine would change the outcome); a
+// sequence that does not finish within 120 s of load-corrected time is an error of the timing class (ErrSeqHang).
 func RunSeq(ver int, ops string) (string, error) {
 	cli, srv, err := pair(ver)
 	if err != nil {
 		return "", err
 	}
+	finished := make(chan struct{})
+	defer close(finished)
 	srvDone := make(chan struct{})
 	go func() {
 		defer close(srvDone)
 		defer srv.Close()
-		srv.SetDeadline(time.Now().Add(30 * time.Second))
 		if srv.Handshake() != nil {
 			return
 		}
 		io.Copy(io.Discard, srv)
 	}()
-	cli.SetDeadline(time.Now().Add(30 * time.Second))
-	var out []string
-	for _, op := range ops {
-		var e error
-		switch op {
-		case 'H':
-			e = cli.Handshake()
-		case 'W':
-			_, e = cli.Write([]byte("zv"))
-		case 'C':
-			e = cli.Close()
-		case 'S':
-			e = cli.CloseWrite()
-		default:
-			return "", errors.New("bad op")
-		}
-		out = append(out, classify(e))
+	type res struct {
+		out []string
+		err error
 	}
-	cli.NetConn().Close()
+	resc := make(chan res, 1)
+	go func() {
+		var out []string
+		for _, op := range ops {
+			var e error
+			switch op {
+			case 'H':
+				e = cli.Handshake()
+			case 'W':
+				_, e = cli.Write([]byte("zv"))
+			case 'C':
+				e = cli.Close()
+			case 'S':
+				e = cli.CloseWrite()
+			default:
+				resc <- res{nil, errors.New("bad op")}
+				return
+			}
+			bump()
+			out = append(out, classify(e))
+		}
+		cli.NetConn().Close()
+		resc <- res{out, nil}
+	}()
+	limit := LoadTimer(120*time.Second, 0, finished)
+	var r res
+	select {
+	case r = <-resc:
+	case <-limit:
+		cli.NetConn().Close()
+		srv.NetConn().Close()
+		return "", ErrSeqHang
+	}
+	if r.err != nil {
+		return "", r.err
+	}
 	select {
 	case <-srvDone:
-	case <-time.After(30 * time.Second):
-		return "", errors.New("server side did not finish")
+	case <-limit:
+		srv.NetConn().Close()
+		return "", ErrSeqHang
 	}
-	if len(out) == 0 {
+	if len(r.out) == 0 {
 		return "-", nil
 	}
-	return strings.Join(out, ","), nil
+	return strings.Join(r.out, ","), nil
 }
+
+// ErrSeqHang: a sequence did not finish (timing class: reported only if it reproduces in isolated re-runs).
+var ErrSeqHang = errors.New("sequence did not finish within 120 s (load-corrected)")
 
 // ---------------------------------------------------------------------------------------------
 // T3: stress scenarios
@@ -241,7 +274,7 @@ func parseStream(s []byte) (counts map[byte]uint32, partial bool, bad string) {
 
 type worker struct {
 	name string
-	op   atomic.Value // string: what it is doing right now
+	op   opCell // string: what it is doing right now (a change counts as progress, see load.go)
 	done atomic.Bool
 }
 
@@ -259,6 +292,8 @@ type side struct {
 	closeReturned atomic.Bool
 	lateWriteOK   atomic.Int32 // Writes begun after Close had returned that nevertheless returned nil
 	mu            sync.Mutex
+	// bytes of chunks whose Write returned nil / bytes delivered to the reader (drain before the half-close)
+	sent, rcvd atomic.Int64
 }
 
 type Stats struct {
@@ -272,6 +307,17 @@ type Stats struct {
 	AlertGates   int // look-ahead alert records held back
 	Gates        [5]int
 	GateTimeouts [5]int
+	// renegotiation scenarios
+	RenegMode, RenegPolicy                   string
+	Renegs, HelloReqs, Refused, WriteRetries int
+	// handshake-tail scenarios
+	TailX            string   // end under test
+	TailKinds        []string // kinds of racing calls
+	TailDisruptive   bool
+	TailNoDeadlines  bool
+	TailCloseWriteOK bool
+	TailResumed      bool   // the handshake of the end under test was a resumption
+	TailWhere        string // where the slow transport waits relative to the socket write
 }
 
 // RunScenario runs one concurrent scenario; returns a violation description ("" = none).
@@ -307,12 +353,15 @@ func RunScenario(seed uint64, mode string, ver int, grace time.Duration) (viol s
 		wg.Add(1)
 		go func() {
 			defer wg.Done()
+			defer bump()
 			defer w.done.Store(true)
 			f(w)
 		}()
 	}
-	far := func() time.Time { return time.Now().Add(60 * time.Second) }
-	stop := make(chan struct{}) // closed when the main goroutine starts the final shutdown
+	far := farAway               // the rig sets no deadline of its own: a hang is found by the watchdogs below
+	stop := make(chan struct{})  // closed when the main goroutine starts the final shutdown
+	ended := make(chan struct{}) // closed when RunScenario returns (ends the load timers)
+	defer close(ended)
 	var violMu sync.Mutex
 	report := func(s string) {
 		violMu.Lock()
@@ -383,6 +432,7 @@ func RunScenario(seed uint64, mode string, ver int, grace time.Duration) (viol s
 						s.lateWriteOK.Add(1)
 					}
 					acked++
+					s.sent.Add(int64(len(chunk)))
 				}
 			})
 		}
@@ -396,6 +446,7 @@ func RunScenario(seed uint64, mode string, ver int, grace time.Duration) (viol s
 				n, err := s.conn.Read(buf[:1+rrd.n(len(buf))])
 				w.op.Store("between reads")
 				s.stream = append(s.stream, buf[:n]...)
+				s.rcvd.Add(int64(n))
 				if err != nil {
 					s.readErr = err
 					return
@@ -475,6 +526,17 @@ func RunScenario(seed uint64, mode string, ver int, grace time.Duration) (viol s
 				spawn(fmt.Sprintf("%s/closewrite%d", s.name, i), func(w *worker) {
 					w.op.Store("waiting for writers")
 					writersWG.Wait()
+					// let the peer drain what is in flight: closeNotify gives the alert 5 s to get out (a deadline of
+					// the library, in real time), which a starved peer behind full socket buffers can exceed
+					w.op.Store("waiting for the peer to drain")
+					for peer.rcvd.Load() < s.sent.Load() {
+						select {
+						case <-stop:
+							return
+						default:
+						}
+						time.Sleep(200 * time.Microsecond)
+					}
 					w.op.Store("CloseWrite")
 					if err := s.conn.CloseWrite(); err != nil {
 						report(fmt.Sprintf("%s: CloseWrite after a completed handshake failed: %v", s.name, err))
@@ -487,15 +549,20 @@ func RunScenario(seed uint64, mode string, ver int, grace time.Duration) (viol s
 	// main: wait for the natural end (graceful: both readers reach EOF) or a bounded time, then Close both ends.
 	allDone := make(chan struct{})
 	go func() { wg.Wait(); close(allDone) }()
-	natural := 90 * time.Second
 	if chaos {
-		natural = time.Duration(20+r.n(400)) * time.Millisecond
-	}
-	select {
-	case <-allDone:
-	case <-time.After(natural):
-		if !chaos {
-			report("graceful scenario did not reach EOF on both sides within 90 s: " + running(workers))
+		// pacing, not a verdict: the final Close is part of the scenario
+		select {
+		case <-allDone:
+		case <-time.After(time.Duration(20+r.n(400)) * time.Millisecond):
+		}
+	} else {
+		select {
+		case <-allDone:
+		case <-LoadTimer(90*time.Second, 10*time.Second, ended):
+			wmu.Lock()
+			ws := append([]*worker(nil), workers...)
+			wmu.Unlock()
+			report(fmt.Sprintf("graceful scenario did not reach EOF on both sides within 90 s (load-corrected, load factor %.1f): %s", LoadFactor(), running(ws)))
 		}
 	}
 	close(stop)
@@ -513,14 +580,18 @@ func RunScenario(seed uint64, mode string, ver int, grace time.Duration) (viol s
 			s.conn.Close()
 			s.closeReturned.Store(true)
 			w.done.Store(true)
+			bump()
 		}()
 	}
 	finished := make(chan struct{})
 	go func() { closers.Wait(); <-allDone; close(finished) }()
 	select {
 	case <-finished:
-	case <-time.After(grace):
-		report("deadlock: " + grace.String() + " after Close() was called on both ends these calls had still not returned: " + running(workers))
+	case <-LoadTimer(grace, 10*time.Second, ended):
+		wmu.Lock()
+		ws := append([]*worker(nil), workers...)
+		wmu.Unlock()
+		report(fmt.Sprintf("deadlock: %v (load-corrected, load factor %.1f) after Close() was called on both ends these calls had still not returned: %s", grace, LoadFactor(), running(ws)))
 		for _, s := range sides {
 			s.conn.NetConn().Close()
 		}
